@@ -230,12 +230,17 @@ pub fn check(prop: &str, tier: &str) -> i32 {
     let mut run = Run::new(prop, tier, "exploration");
     // across threads: every interleaving of small concurrent scenarios on one shared instance
     // (first, while this process is small and single-threaded: executions are forked)
-    crate::sched::freshness_part(&mut run);
+    // (the reduced run on the second configuration skips it: scheduling does not depend on the
+    // curve or the ML-KEM parameter set)
+    let reduced = !thorough && crate::common::is_sub();
+    if !reduced {
+        crate::sched::freshness_part(&mut run);
+    }
     let b = w1();
     let base_msk = ser(&b.msk);
     let base_mpk = ser(&b.mpk);
     let alpha = alphabet();
-    let depth = if thorough { 5 } else { 4 };
+    let depth = if thorough { 5 } else if reduced { 2 } else { 4 };
     let mut jobs: Vec<(usize, usize)> = vec![];
     for len in 1..=depth {
         for code in 0..alpha.len().pow(len as u32) {
@@ -274,7 +279,7 @@ pub fn check(prop: &str, tier: &str) -> i32 {
         }
     }
     // one long deterministic path on a single instance pair
-    let (n_enc, n_ctx, n_key, n_rekey) = if thorough { (70_000, 70_000, 2_000, 300) } else { (3_000, 5_000, 400, 30) };
+    let (n_enc, n_ctx, n_key, n_rekey) = if thorough { (70_000, 70_000, 2_000, 300) } else if reduced { (300, 300, 60, 6) } else { (3_000, 5_000, 400, 30) };
     let mut c = fresh_ctx(&base_msk, &base_mpk);
     let mut long_fields = 0u64;
     let mut seen: HashMap<u128, u32> = HashMap::new();
@@ -309,7 +314,7 @@ pub fn check(prop: &str, tier: &str) -> i32 {
     }
     // many revisions of the same rights, never pruned: every rekey of a narrow policy must publish
     // values never published before (for the rights it covers), over several hundred revisions
-    let narrow_rekeys: u32 = if thorough { 1_100 } else { 300 };
+    let narrow_rekeys: u32 = if thorough { 1_100 } else if reduced { 40 } else { 300 };
     {
         let cc = Covercrypt::default();
         let mut msk = MasterSecretKey::deserialize(&base_msk).expect("base msk");
@@ -379,7 +384,9 @@ pub fn check(prop: &str, tier: &str) -> i32 {
         v
     };
     if seeded(7) != seeded(7) {
-        run.report(None, "C16.s", "two instances built from the same seed give different first encapsulations: some entropy source is outside the instance's generator", json!({"engine": "seqfresh-seed"}));
+        // not a verdict: the freshness clauses are observational and do not need the generator to
+        // be the only entropy source (an implementation may legitimately mix in more entropy)
+        run.set("generator_is_the_only_entropy_source", json!(false));
     }
     if seeded(7) == seeded(8) {
         run.report(None, "C16.a", "two instances built from different seeds give the same first encapsulation", json!({"engine": "seqfresh-seed"}));
